@@ -308,7 +308,7 @@ pub fn creation_cases(tier: Tier) -> Vec<CreateCase> {
 }
 
 pub fn jobs(tier: Tier) -> Vec<Job> {
-    let full = PuChecker { name: "c16-pu-full".into(), seeds: vec!["S0", "S1", "S2", "S4"], alpha: Alpha::Full, oracles: vec![oracle_immutable] };
+    let full = PuChecker { name: "c16-pu-full".into(), seeds: vec!["S0", "S1", "S2", "S4", "S8"], alpha: Alpha::Full, oracles: vec![oracle_immutable] };
     vec![
         explore_job(full, tier.pick(2, 3), Caps::default()),
         grid_job(
